@@ -29,6 +29,12 @@ func (s *Weighted) Acquire(ctx context.Context, n int64) error {
 		return err
 	}
 	kern.Call(kern.Req{Op: kern.OpSemAcq, Obj: kern.ObjID(&s.id), A: n, B: s.size})
+	if err := ctx.Err(); err != nil && !kern.Aborting() {
+		// the context was cancelled while this task waited: like the real semaphore the call
+		// fails without holding anything (the simulated waiter notices it when its turn comes)
+		kern.Call(kern.Req{Op: kern.OpSemRel, Obj: kern.ObjID(&s.id), A: n, B: s.size})
+		return err
+	}
 	if kern.RaceLane && !kern.Aborting() {
 		return s.real.Acquire(ctx, n)
 	}
